@@ -259,7 +259,7 @@ theorem mem_find_nodup : ∀ {fs : TFields}, fs.names.Nodup → ∀ {k l t}, (k,
       exact mem_find_nodup hd.2 h
 
 theorem FWF_of_find {o : Options} {s : Nat} {fs : TFields} (hd : fs.names.Nodup)
-    (h : ∀ k l t, fs.find k = some (l, t) → l < s ∧ WF o t) : FWF o s fs :=
+    (h : ∀ k l t, fs.find k = some (l, t) → l < s ∧ WF o t ∧ t.name = k) : FWF o s fs :=
   FWF_of hd fun k l t hm => h k l t (mem_find_nodup hd hm)
 
 def ORel (x y : Option Tracer) : Prop :=
@@ -492,5 +492,30 @@ theorem keyT_swap {o : Options} {p : String} {s : Nat} {k : String} {vx vy : Lis
           refine ⟨some u, some b, by simp only [hb4], by simp only [curT, hb5], heb, ?_, ?_⟩
           · intro t ht; cases ht; exact hwa
           · intro t ht; cases ht; exact hwb
+
+theorem freshField_name (p : String) (s : Nat) (k : String) : (freshField p s k).name = k := by
+  unfold freshField; split <;> rfl
+
+theorem keyT_name {o : Options} {p : String} {s : Nat} {cur : Option Tracer} {k : String} {vs : List SVal} {t : Tracer}
+    (hc : ∀ t0, cur = some t0 → t0.name = k) (h : keyT o p s cur k vs = .ok (some t)) : t.name = k := by
+  unfold keyT at h
+  cases vs with
+  | nil =>
+    simp only [Except.ok.injEq] at h
+    cases cur with
+    | none => cases h
+    | some t0 => simp only [Option.map, Option.some.injEq] at h; rw [← h, name_mark]; exact hc t0 rfl
+  | cons w ws =>
+    simp only at h
+    cases hb : absorbAll .fixed o (curT p s k cur) (w :: ws) with
+    | error e => rw [hb] at h; cases h
+    | ok t' =>
+      rw [hb] at h
+      simp only [Except.ok.injEq, Option.some.injEq] at h
+      subst h
+      rw [absorbAll_name o _ _ _ hb]
+      cases cur with
+      | none => exact freshField_name p s k
+      | some t0 => exact hc t0 rfl
 
 end SaModel.Lemmas.C07
